@@ -1423,3 +1423,160 @@ def corpus_c11(tier):
                     continue
                 cases.append({"id": f"fold-{site}-{op}-{a}-{b}", "family": "fold", "stmts": ins + body, "kind": "stateless", "params": {"places": True}})
     return cases
+
+
+# ======================================================================================
+#  C07 invocation matrix
+# ======================================================================================
+
+
+def c07_programs():
+    A, B, C = V("a"), V("b"), V("c")
+    ins3 = [["input", "a", "signal-A", 10007], ["input", "b", "signal-B", 10009], ["input", "c", "iron-plate", 10037]]
+    P = lambda e, t="signal-X": ["proj", e, t]  # noqa: E731
+    progs = {
+        "arith": (ins3 + [["sig", "o", P(["bin", "+", ["bin", "*", A, K(3)], B])], ["sig", "p", P(["bin", "%", ["bin", "-", A, B], K(7)], "signal-Y")], ["sig", "q", ["cond", ["and", ["cmp", ">", A, K(3)], ["cmp", "<", B, K(9)]], C]], ["sig", "r", P(["cmp", "<=", A, B], "signal-Z")]], {}),
+        "cond-same-type": (ins3 + [["sig", "d", ["cond", ["cmp", ">", A, K(3)], ["bin", "*", A, K(3)]]], ["sig", "e", P(["bin", "+", ["cond", ["cmp", ">=", A, K(0)], A], ["cond", ["cmp", "<", A, K(0)], ["bin", "-", K(0), A]]])]], {}),
+        "bundle": (ins3 + [["input", "s", "signal-S", 10079], ["bun", "b0", ["bundle", [["lit", "signal-D", K(5)], ["lit", "coal", K(-3)], ["lit", "steel-plate", K(100)]]]], ["bun", "b1", ["bin", "*", V("b0"), K(2)]], ["bun", "b2", ["cond", ["cmp", ">", V("b1"), K(4)], V("b1")]],
+                           ["bun", "b3", ["cond", ["cmp", ">", V("s"), K(2)], V("b0")]], ["sig", "an", ["cmp", ">", ["any", V("b1")], K(50)]], ["bun", "b4", ["bin", "+", V("b0"), V("s")]]], {}),
+        "entities": (ins3 + [["place", "l0", "small-lamp", K(0), K(0), None], ["enable", "l0", ["cmp", ">", A, K(10)]], ["place", "i0", "inserter", K(3), K(0), None], ["enable", "i0", ["cmp", ">", ["bin", "+", A, B], K(5)]],
+                             ["place", "ch", "steel-chest", K(0), K(3), None], ["bun", "co", ["out", "ch"]], ["place", "l1", "small-lamp", K(2), K(3), None], ["enable", "l1", ["cmp", ">", ["all", V("co")], K(100)]],
+                             ["place", "l2", "small-lamp", K(4), K(3), None], ["enable", "l2", A]], {}),
+        "memory": (ins3 + [["mem", "m", "signal-M"], ["write", "m", P(["bin", "*", A, K(2)], "signal-M"), ["cmp", ">", B, K(0)]], ["sig", "r0", ["read", "m"]], ["sig", "r1", P(["bin", "+", ["read", "m"], K(1)])]], {"K": 3}),
+        "latch": ([["input", "t", "signal-T", 10007], ["mem", "m", "signal-L"], ["latch", "m", K(5), ["cmp", "<", V("t"), K(20)], ["cmp", ">=", V("t"), K(80)], "sr"], ["sig", "r0", ["read", "m"]],
+                   ["mem", "n", "signal-N"], ["latch", "n", K(1), ["cmp", ">", V("t"), K(50)], ["cmp", "<", V("t"), K(10)], "rs"], ["sig", "s0", ["read", "n"]]], {"K": 3}),
+        "counter2": (ins3[:1] + [["mem", "m", "signal-M"], ["write", "m", ["bin", "%", ["bin", "+", ["read", "m"], P(A, "signal-M")], K(10)], None], ["sig", "r0", ["read", "m"]],
+                                  ["mem", "k", "signal-K"], ["write", "k", ["bin", "+", ["read", "k"], K(1)], None], ["sig", "r1", ["read", "k"]]], {"K": 3}),
+        "modcounter": (ins3[:1] + [["mem", "m", "signal-A"], ["write", "m", ["bin", "%", ["bin", "+", ["read", "m"], A], K(10)], None], ["sig", "out", ["bin", "+", ["read", "m"], K(0)]],
+                                    ["mem", "k", "signal-K"], ["write", "k", ["bin", "%", ["bin", "+", ["read", "k"], K(1)], K(7)], None], ["sig", "r1", ["read", "k"]]], {"K": 3}),
+        "far": (ins3[:2] + [["place", "l0", "small-lamp", K(25), K(0), None], ["enable", "l0", ["cmp", ">", A, K(5)]], ["place", "l1", "small-lamp", K(-20), K(0), None], ["enable", "l1", ["cmp", ">", ["bin", "+", A, B], K(7)]], ["sig", "o", P(["bin", "-", A, B])]], {}),
+    }
+    return progs
+
+
+def c07_cells(tier):
+    cells = []
+    for entry in ("module", "compile", "factompile"):
+        for inp in ("file", "string"):
+            if entry == "compile" and inp == "string":
+                continue
+            for js in (False, True):
+                for outk in ("stdout", "file"):
+                    for opt in (None, "no-optimize", "poles:medium", "poles:substation", "name"):
+                        cells.append({"entry": entry, "input": inp, "json": js, "out": outk, "opt": opt})
+    if tier == "quick":
+        # covering subset: every value of every dimension, every entry x format, every entry x option
+        keep = []
+        for i, c in enumerate(cells):
+            if c["opt"] is None and c["out"] == "stdout":
+                keep.append(c)
+            elif c["opt"] is None and c["out"] == "file" and c["input"] == "file" and c["json"]:
+                keep.append(c)
+            elif c["opt"] is not None and c["input"] == "file" and ((c["json"] and c["out"] == "stdout") if c["entry"] != "compile" else (not c["json"] and c["out"] == "file")) and (c["opt"] != "poles:substation" or c["entry"] == "module"):
+                keep.append(c)
+        cells = keep
+    return cells
+
+
+def corpus_c07(tier):
+    cases = []
+    progs = c07_programs()
+    names = list(progs)
+    if tier == "quick":
+        names = ["arith", "cond-same-type", "bundle", "entities", "memory", "counter2", "modcounter", "far"]
+    for pn in names:
+        stmts, params = progs[pn]
+        for ci, cell in enumerate(c07_cells(tier)):
+            if tier == "quick" and pn not in ("arith", "entities") and not (cell["opt"] is None and cell["input"] == "file" and cell["out"] == "stdout" and cell["entry"] in ("module", "compile")) and not (cell["opt"] in ("poles:medium",) and cell["entry"] == "module"):
+                continue
+            cid = f"cli-{pn}-{cell['entry']}-{cell['input']}-{'json' if cell['json'] else 'str'}-{cell['out']}-{cell['opt'] or 'default'}"
+            cases.append({"id": cid, "family": "cli", "kind": "cli", "stmts": stmts, "params": dict(params, cell=cell, group=f"{pn}|{cell['opt'] if cell['opt'] != 'name' else None}")})
+    return cases
+
+
+# ======================================================================================
+#  C08 / C09 / C18 layout families
+# ======================================================================================
+
+ALL_POLE_BUILDS = [OPT, NOOPT] + [{"tag": f"opt+{t}", "optimize": True, "poles": t} for t in ("small", "medium", "big", "substation")]
+
+
+def fam_layout_fixed():
+    A, B = V("a"), V("b")
+    ins = [["input", "a", "signal-A", 10007], ["input", "b", "signal-B", 10009]]
+    P = lambda e, t="signal-X": ["proj", e, t]  # noqa: E731
+    progs = []
+
+    def add(name, body, **params):
+        progs.append({"id": f"yfixed-{name}", "family": "fixed", "kind": "layout", "stmts": ins + body, "params": params})
+
+    def lamps(xs, y=0, cond=lambda j: ["cmp", ">", A, K(j + 5)], proto="small-lamp", pre="l"):
+        out = []
+        for j, x in enumerate(xs):
+            out += [["place", f"{pre}{j}", proto, K(x), K(y), None], ["enable", f"{pre}{j}", cond(j)]]
+        return out
+
+    add("two-far-20", lamps([0, 20]))
+    add("two-far-35", lamps([-10, 25]))
+    add("two-far-60", lamps([0, 60]))
+    add("row-far", lamps([0, 14, 28, 42]))
+    add("negative", lamps([-30, -15, -3], y=-4))
+    add("expr-far", lamps([0, 22], cond=lambda j: ["cmp", ">", ["bin", "+", A, B], K(j)]) + [["sig", "o", P(["bin", "-", A, B])]])
+    add("two-rows", lamps([0, 25], y=0) + lamps([0, 25], y=2, cond=lambda j: ["cmp", "<", B, K(j)], pre="m"))
+    # two independent long routes carrying the SAME signal name on the same colour, close together
+    add("two-chests-two-lamps", [["place", "c1", "steel-chest", K(0), K(0), None], ["place", "c2", "steel-chest", K(0), K(3), None], ["bun", "o1", ["out", "c1"]], ["bun", "o2", ["out", "c2"]],
+                                 ["place", "l1", "small-lamp", K(30), K(0), None], ["place", "l2", "small-lamp", K(30), K(3), None], ["enable", "l1", ["cmp", ">", ["any", V("o1")], K(5)]], ["enable", "l2", ["cmp", ">", ["any", V("o2")], K(5)]]])
+    add("two-chests-two-lamps-apart", [["place", "c1", "steel-chest", K(0), K(0), None], ["place", "c2", "steel-chest", K(0), K(25), None], ["bun", "o1", ["out", "c1"]], ["bun", "o2", ["out", "c2"]],
+                                       ["place", "l1", "small-lamp", K(30), K(0), None], ["place", "l2", "small-lamp", K(30), K(25), None], ["enable", "l1", ["cmp", ">", ["any", V("o1")], K(5)]], ["enable", "l2", ["cmp", ">", ["any", V("o2")], K(5)]]])
+    add("same-signal-two-sources", [["input", "d", "signal-A", 10039], ["sig", "x1", ["bin", "*", A, K(2)]], ["sig", "x2", ["bin", "*", V("d"), K(3)]],
+                                    ["place", "l1", "small-lamp", K(28), K(0), None], ["place", "l2", "small-lamp", K(28), K(2), None], ["place", "l3", "small-lamp", K(-20), K(1), None],
+                                    ["enable", "l1", ["cmp", ">", V("x1"), K(5)]], ["enable", "l2", ["cmp", ">", V("x2"), K(5)]], ["enable", "l3", ["cmp", ">", V("x2"), K(9)]]])
+    add("same-input-signal-two-lamps", [["input", "d", "signal-A", 10039], ["place", "l1", "small-lamp", K(26), K(0), None], ["place", "l2", "small-lamp", K(26), K(1), None], ["enable", "l1", ["cmp", ">", A, K(5)]], ["enable", "l2", ["cmp", ">", V("d"), K(5)]]])
+    add("multi-tile", [["place", "t0", "train-stop", K(4), K(4), None], ["enable", "t0", ["cmp", ">", A, K(3)]], ["place", "as", "assembling-machine-1", K(8), K(4), None], ["enable", "as", ["cmp", ">", B, K(3)]],
+                       ["place", "tk", "storage-tank", K(12), K(4), None], ["place", "ch", "steel-chest", K(16), K(4), None], ["bun", "co", ["out", "ch"]], ["place", "l", "small-lamp", K(18), K(4), None], ["enable", "l", ["cmp", ">", ["all", V("co")], K(5)]]])
+    add("multi-tile-negative", [["place", "t0", "train-stop", K(-6), K(-6), None], ["enable", "t0", ["cmp", ">", A, K(3)]], ["place", "as", "assembling-machine-1", K(-12), K(2), None], ["enable", "as", ["cmp", ">", B, K(3)]], ["place", "l", "small-lamp", K(-7), K(1), None], ["enable", "l", A]])
+    add("user-near-origin", lamps([0, 1, 2, 3], y=0) + lamps([0, 1, 2, 3], y=1, pre="m") + [["sig", "o", P(["bin", "*", ["bin", "+", A, B], K(3)])]])
+    add("relay-through-user-entity", [["place", "ch", "steel-chest", K(0), K(0), None], ["bun", "co", ["out", "ch"]], ["place", "l", "small-lamp", K(30), K(0), None], ["enable", "l", ["cmp", ">", ["any", V("co")], K(5)]],
+                                      ["place", "blk", "assembling-machine-1", K(7), K(-1), None], ["place", "blk2", "train-stop", K(16), K(-1), None], ["place", "blk3", "small-lamp", K(-7), K(0), None]])
+    add("memory-adversarial", [["mem", "m", "signal-M"], ["write", "m", P(["bin", "*", A, K(2)], "signal-M"), ["cmp", ">", B, K(0)]], ["sig", "r0", ["read", "m"]]], K=3, adversarial=True)
+    add("latch-adversarial", [["mem", "m", "signal-L"], ["latch", "m", K(7), ["cmp", ">", A, K(20)], ["cmp", ">", B, K(80)], "sr"], ["sig", "r0", ["read", "m"]]], K=3, adversarial=True)
+    add("memory-far-reader", [["mem", "m", "signal-M"], ["write", "m", P(["bin", "*", A, K(2)], "signal-M"), ["cmp", ">", B, K(0)]], ["place", "l", "small-lamp", K(30), K(0), None], ["enable", "l", ["cmp", ">", ["read", "m"], K(5)]], ["sig", "r0", ["read", "m"]]], K=3)
+    add("latch-multiplier-far", [["mem", "m", "signal-L"], ["latch", "m", K(7), ["cmp", "<", A, K(20)], ["cmp", ">=", A, K(80)], "sr"], ["place", "l", "small-lamp", K(-25), K(3), None], ["enable", "l", ["cmp", ">", ["read", "m"], K(0)]], ["sig", "r0", ["read", "m"]]], K=3)
+    body = [["sig", "m", ["bin", "*", A, K(3)]]]
+    for i in range(12):
+        body.append(["sig", f"o{i}", P(["bin", "+", V("m"), K(i + 1)], f"signal-{chr(ord('C') + i)}")])
+    add("fanout-12", body)
+    body = []
+    for i in range(16):
+        body += [["place", f"l{i}", "small-lamp", K(2 * i), K(6), None], ["enable", f"l{i}", ["cmp", ">", A, K(10 * i)] if i % 2 else ["cmp", "<", B, K(i)]]]
+    add("row-16-expr", body)
+    return progs
+
+
+def _layout_cases(progs, tier, quick_builds, quick_unknown, all_builds=None, all_unknown=(0, 1, 3, 5), extra=None):
+    """one case per (program, build, outcome stub): every compile runs in a fresh worker process"""
+    all_builds = all_builds or ALL_POLE_BUILDS
+    cases = []
+    for c in progs:
+        for b in all_builds:
+            for k in all_unknown:
+                if c["params"].get("single_outcome") and k != 0:
+                    continue
+                q = b["tag"] in quick_builds and k in quick_unknown
+                if tier == "quick" and not q:
+                    continue
+                p = dict(c["params"], builds=[b], unknown_first=[k])
+                if extra:
+                    p.update(extra)
+                cases.append(dict(c, id=f"{c['id']}|{b['tag']}|u{k}", params=p))
+    return cases
+
+
+def corpus_c08(tier):
+    progs = []
+    for c in fam_layout_fixed():
+        c = dict(c)
+        if c["id"] in ("yfixed-row-16-expr",):
+            c["params"] = dict(c["params"], single_outcome=True)
+        progs.append(c)
+    return _layout_cases(progs, tier, quick_builds=("opt", "opt+medium", "opt+substation"), quick_unknown=(0, 3))
